@@ -142,7 +142,7 @@ def _run_property(ctx):
                       {'kind': 'correspondence', 'stream': 'C10 apply', 'first': {k: mism[0][k] for k in ('strategy', 'model')}}, found=False, classify=False)
 
 
-MERGE_MODEL_THEOREMS = ['Nbdime.C10_model_no_conflict']
+MERGE_MODEL_THEOREMS = ['Nbdime.C10_model_no_conflict', 'Nbdime.C10_cli_no_conflict', 'Nbdime.C10.useArgs_ok']
 THEOREMS.extend(t for t in MERGE_MODEL_THEOREMS if t not in THEOREMS)
 
 
@@ -165,10 +165,18 @@ def table_obligation(ctx):
     ok, out = vlib.lean_run(src, 'C10_Tables.lean')
     ctx.cov['obligations'] += 2
     ctx.cov['extracted_use_tables'] = len(rows)
-    if ok:
-        ctx.cov['discharged'] += 2
-        return None
-    return out[-500:]
+    if not ok:
+        return out[-500:]
+    ctx.cov['discharged'] += 2
+    # C10_cli_no_conflict speaks about Merge.notebookStrategies: that function must be what the code computes now
+    from checks import c03
+    src2, n2 = c03.lean_strategy_function_obligation(c03.extract_strategy_tables())
+    ok2, out2 = vlib.lean_run(src2, 'C10_StrategyFunction.lean')
+    ctx.cov['obligations'] += n2
+    if not ok2:
+        return 'Merge.notebookStrategies differs from notebook_merge_strategies: ' + out2[-400:]
+    ctx.cov['discharged'] += n2
+    return None
 
 
 def run(ctx):
